@@ -17,10 +17,12 @@ arbitrary type `α` (`ImgOf α`): no operation looks at them.  NumPy's `np.dot`
 with the selection / permutation / scaling matrices the code builds is modelled
 by its column action.  Of `io_orientation` (nibabel) the SVD is a *parameter*
 (the harness passes the polar factor, or the orientations the implementation
-computed); the loop after it is `ioOrientFrom`, and for affines whose linear
-part is monomial the whole orientation is `monoOrnt`.
+computed); the loop after it is `ioOrientFrom`, for affines whose linear
+part is monomial the whole orientation is `monoOrnt`, and for affines whose
+columns are mutually orthogonal it is `orthOrnt` (rational arithmetic on squares).
 Continued in `Model/C02B.lean` (iter_axis asarray, ImageList, helpers, slices.py,
-the store) and `Model/C02Run.lean` (line protocol).
+the store), `Model/C02C.lean` (every index kind, ArrayCoordMap / Grid, xyz_affine,
+programs over the whole operation language) and `Model/C02Run.lean` (line protocol).
 -/
 import NipyVerif.Model.Common
 namespace NipyVerif.C02
@@ -507,21 +509,77 @@ def monoOrnt (cols : List Vec) (nout : Nat) (fix : Bool) : List (Option Nat) :=
     ioOrientFrom R (sqKeys R cols.length)
   else []
 
+/-! ## `io_orientation` of affines with mutually orthogonal columns -/
+
+def dotCols (a b : Vec) (nout : Nat) : Rat :=
+  (List.range nout).foldl (fun acc r => acc + a r * b r) 0
+
+/-- every two different columns of the linear part are orthogonal -/
+def orthCols (cols : List Vec) (nout : Nat) : Bool :=
+  (List.range cols.length).all (fun i => (List.range cols.length).all (fun j =>
+    i == j || dotCols (cols.getD i zeroVec) (cols.getD j zeroVec) nout == 0))
+
+/-- signed squares of the column-normalised linear part: entry `(r, k)` is
+    `sgn(a) · a² / ‖col k‖²` (0 for an all-zero column).  For orthogonal columns the
+    column-normalised matrix `RS` is a partial isometry, hence its own polar factor `R`; `|R|`
+    and `R²` are ordered alike, so the loop can run on these rational numbers. -/
+def sqNormRows (cols : List Vec) (nout : Nat) : List (List Rat) :=
+  (List.range nout).map (fun r => cols.map (fun c =>
+    let ns := dotCols c c nout
+    if ns = 0 then 0 else sgn (c r) * (c r * c r) / ns))
+
+/-- `np.allclose(col, 0)` on squares: `|x| ≤ 1e-8 ⇔ x² ≤ 1e-16` -/
+def closeZeroSq (col : List Rat) : Bool :=
+  col.all (fun x => decide (absR x ≤ 1 / 10000000000000000))
+
+/-- `greedyPairs` on the signed squares -/
+def greedyPairsSq : List Nat → List (List Rat) → List (Nat × Option Nat)
+  | [], _ => []
+  | i :: is, R =>
+      if closeZeroSq (colOf R i) then (i, none) :: greedyPairsSq is R
+      else
+        let o := argmaxAbs (colOf R i)
+        (i, some o) :: greedyPairsSq is (R.set o ((R.getD o []).map (fun _ => 0)))
+
+/-- the loop of `io_orientation` run on the signed squares `Q` of the polar factor; the keys
+    `np.min(-(R**2), axis=0)` are minus the largest `|Q|` of each column -/
+def ioOrientSq (Q : List (List Rat)) (p : Nat) : List (Option Nat) :=
+  let keys := (List.range p).map (fun i =>
+    (colOf Q i).foldl (fun m x => if -(absR x) < m then -(absR x) else m) 0)
+  let pairs := greedyPairsSq (argsortQ keys) Q
+  (List.range p).map (fun i => (pairs.lookup i).getD none)
+
+/-- `io_orientation` of an affine whose columns `cs` are mutually orthogonal (rotations with
+    zooms, all monomial affines, zero columns), in exact rational arithmetic; `[]` when the columns
+    are not orthogonal -/
+def orthOrntCore (cs : List Vec) (nout : Nat) : List (Option Nat) :=
+  if orthCols cs nout then ioOrientSq (sqNormRows cs nout) cs.length else []
+
+/-- the same for the affine with columns `cols`, after `_fix0` when `fix` -/
+def orthOrnt (cols : List Vec) (nout : Nat) (fix : Bool) : List (Option Nat) :=
+  let A0 := linRows cols nout
+  let A := if fix then fix0 A0 cols.length else A0
+  orthOrntCore ((List.range cols.length).map (fun k => fun r => (A.getD r []).getD k 0)) nout
+
 /-- where an orientation comes from: passed in by the harness (the value nibabel computed),
-    or computed by the model itself (`mono`, affines with a monomial linear part) -/
+    or computed by the model itself (`mono`: affines with a monomial linear part; `orth`: affines
+    whose columns are mutually orthogonal) -/
 inductive OrntSrc
   | given (o : List (Option Nat))
   | mono
+  | orth
 deriving Repr
 
 def OrntSrc.get (s : OrntSrc) (g : ImgOf α) (fix : Bool) : List (Option Nat) :=
   match s with
   | .given o => o
   | .mono => monoOrnt g.cols g.outNames.length fix
+  | .orth => orthOrnt g.cols g.outNames.length fix
 
 inductive XyzSrc
   | given (o0 o1 o2 : List (Option Nat))
   | mono
+  | orth
 deriving Repr
 
 /-- orientation used at stage `k` (0: the input, 1: after reordering the reference,
@@ -530,6 +588,7 @@ def XyzSrc.get (s : XyzSrc) (g : ImgOf α) (k : Nat) : List (Option Nat) :=
   match s with
   | .given o0 o1 o2 => if k = 0 then o0 else if k = 1 then o1 else o2
   | .mono => monoOrnt g.cols g.outNames.length false
+  | .orth => orthOrnt g.cols g.outNames.length false
 
 /-- `as_xyz_image(img, name2xyz)`; `orient h k` is `io_orientation` of the affine of the image
     `h` the code looks at in stage `k`. -/
